@@ -548,6 +548,22 @@ class LFRicKern(CodedKern):
         return (not accesses.intersection(set(all_writes)))
 
     @property
+    def all_updates_are_shared_writes(self):
+        '''
+        :returns: True if all of the arguments updated by this kernel have \
+                  'GH_WRITE' access and none of them is known to be on a \
+                  discontinuous function space, False otherwise. Only then \
+                  does the kernel guarantee that what it computes from the \
+                  annexed dofs it reads is written to annexed dofs only.
+        :rtype: bool
+
+        '''
+        if not self.all_updates_are_writes:
+            return False
+        return not any(arg.is_field and arg.access == AccessType.WRITE and
+                       arg.discontinuous for arg in self.args)
+
+    @property
     def base_name(self):
         '''
         :returns: a base name for this kernel.
